@@ -1,40 +1,53 @@
 (* C01 — wrapping preserves the text: lines are in-order slices of the input.
-   Stage theorems (the assembled statement about wrap's lines is in Proofs/Pipeline.v
-   and is added here when it is complete): the word list handed to the line-breaking
-   algorithm spells the paragraph exactly, stage by stage, and the algorithm only groups
-   it. *)
-From TW Require Import Wrap.
-From TW Require Import Lossless SplitBreak Partition.
+   Holds for every optimal-fit oracle that returns an ordered partition (OfitOK — proved
+   for the reference oracle, C06 for smawk's shape) and every custom splitter that
+   returns strictly increasing proper character boundaries (SplitterOK — proved for the
+   harness's custom splitter); both built-in splitters satisfy it by C12.
 
-(* word finding: concatenating word+whitespace reproduces the paragraph (both separators) *)
-Theorem C01_find_words_lossless : forall cw lbc sep line,
-  concat (map (fun w => w_word w ++ w_ws w) (find_words cw lbc sep line)) = line.
-Proof.
-  intros cw lbc [|] line; cbn [find_words].
-  - exact (proj1 (ascii_lossless cw line)).
-  - exact (proj1 (unicode_lossless cw lbc line)).
-Qed.
+   ParaSpec o first p pl : either p = [] and pl is the single line carrying the indent,
+   or p = concat (body_i ++ gap_i) for segments with gap_i all spaces and
+   pen_i ∈ {[], "-"}, and line i of pl is  indent_i ++ body_i ++ pen_i, Borrowed at the
+   byte offset of body_i in p when indent_i and pen_i are empty, Owned otherwise; with the
+   ASCII separator no body ends in a space.  (For the Unicode separator a body can end in
+   a space only through a force-broken or custom-split word containing one; that clause
+   is checked on the implementation by L2, not proved.) *)
+From TW Require Import Wrap Custom.
+From TW Require Import Paragraphs Pipeline.
 
-(* splitting keeps word text and whitespace (split points below the word's length) *)
-Theorem C01_split_words_lossless : forall (cw : char -> N) sp ws ps,
-  (forall w, In w ws -> Forall (fun o => o < blen (w_word w)) (sp (w_word w))) ->
-  split_words cw sp ws = Some ps ->
-  concat (map (fun w => w_word w ++ w_ws w) ps) = concat (map (fun w => w_word w ++ w_ws w) ws).
-Proof. exact split_words_concat. Qed.
+(* text level: the text is its paragraphs joined by the line ending; the lines are the
+   paragraphs' lines in order; paragraph k sits at byte offset blen pre and its lines are
+   ParaSpec lines shifted by that offset: nothing except gap spaces and line-ending
+   sequences is lost, nothing is duplicated, reordered or invented *)
+Theorem C01_wrap : forall cw alnum lbc custom_sp ofit o text,
+  OfitOK ofit -> SplitterOK custom_sp ->
+  exists ls pls,
+    wrap cw alnum lbc custom_sp ofit o text = Some ls /\
+    text = join (le_str (o_le o)) (split_le (o_le o) text) /\
+    ls = concat pls /\ length pls = length (split_le (o_le o) text) /\
+    forall k p, nth_error (split_le (o_le o) text) k = Some p ->
+      exists pre post pl,
+        text = pre ++ p ++ post /\
+        blen pre = paras_blen (o_le o) (firstn k (split_le (o_le o) text)) /\
+        ParaSpec o (k =? 0)%nat p pl /\
+        nth_error pls k = Some (map (shift_cow (blen pre)) pl).
+Proof. exact wrap_paragraphs. Qed.
 
-(* force-breaking keeps the word text; whitespace and penalty stay on the last piece *)
-Theorem C01_break_apart_lossless : forall (cw : char -> N) lim wd,
-  concat (map w_word (break_apart cw lim wd)) = w_word wd /\
-  (forall init l, break_apart cw lim wd = init ++ [l] ->
-     Forall (fun p => w_ws p = [] /\ w_pen p = []) init /\ w_ws l = w_ws wd /\ w_pen l = w_pen wd).
-Proof. intros. split; [apply break_apart_concat|apply break_apart_ws_pen]. Qed.
+(* one paragraph: segment i yields exactly this line, at exactly this place *)
+Theorem C01_line_of_segment : forall o first (l1 : list seg) s l2,
+  let segs := l1 ++ s :: l2 in
+  let i := length l1 in
+  let pre := concat (map seg_text l1) in
+  concat (map seg_text segs) = pre ++ s_body s ++ s_gap s ++ concat (map seg_text l2) /\
+  nth_error (seg_lines o first segs 0) i =
+    Some (mkLine (nth_indent o first i ++ s_body s ++ s_pen s)
+                 (if nonempty (nth_indent o first i) || nonempty (s_pen s) then Owned
+                  else Borrowed (blen pre))).
+Proof. exact seg_lines_line. Qed.
 
-(* the algorithm only groups the words, in order *)
-Theorem C01_first_fit_partition : forall (ws : list word) lws,
-  concat (first_fit word_frag ws lws) = ws.
-Proof. intros. apply first_fit_concat. Qed.
+(* the hypotheses are met by the reference oracle and the harness's custom splitter *)
+Theorem C01_hypotheses_met : OfitOK ofit_dp /\ SplitterOK custom3.
+Proof. split; [exact ofit_dp_ok|exact custom3_splitter_ok]. Qed.
 
-Print Assumptions C01_find_words_lossless.
-Print Assumptions C01_split_words_lossless.
-Print Assumptions C01_break_apart_lossless.
-Print Assumptions C01_first_fit_partition.
+Print Assumptions C01_wrap.
+Print Assumptions C01_line_of_segment.
+Print Assumptions C01_hypotheses_met.
